@@ -26,6 +26,7 @@ func checkC07(c *Ctx) {
 	c.Rule("C07/R7", "space classification is applied to decoded runes, not to single bytes converted to runes")
 	c.Rule("C07/R8", ".config in a filter and .unit in a projection are rejected with a syntax error")
 
+	c.Rule("C07/R9", "no error is overwritten unseen: in the parsers and in the filter/projection constructors an error produced by a call inside a loop is compared with nil (or returned) inside that loop, so an invalid operand that is not the last one is still rejected")
 	p := mustLoad(c, loadOpts{}, "./benchproc", "./benchproc/internal/parse", "./storage/query", "./analysis/app")
 	scanPkgs := []string{"benchproc/internal/parse", "benchproc", "storage/query", "analysis/app"}
 	if c.Tier == "thorough" {
@@ -38,8 +39,10 @@ func checkC07(c *Ctx) {
 	}
 	// positive controls
 	ctl := mustLoad(c, loadOpts{dir: c.HomeDir + "/checker"}, "./testdata/lookbehind")
-	nCtl1, nCtl5 := 0, 0
+	nCtl1, nCtl5, nCtl9 := 0, 0, 0
 	for _, fn := range ctl.Funcs("perfcheck/testdata/lookbehind") {
+		l9, _ := lostLoopErrors(fn)
+		nCtl9 += len(l9)
 		for _, f := range findLookBehind(fn) {
 			_ = f
 			nCtl1++
@@ -50,6 +53,11 @@ func checkC07(c *Ctx) {
 		c.Undecided("C07/R1", "positive-control", "", "the look-behind matcher no longer recognises its own positive example")
 	} else {
 		c.OK("C07/R1", "positive-control", "checker/testdata/lookbehind/lb.go", "matcher fires on the stored look-behind example")
+	}
+	if nCtl9 == 0 {
+		c.Undecided("C07/R9", "positive-control", "", "the lost-loop-error matcher no longer recognises its own positive example")
+	} else {
+		c.OK("C07/R9", "positive-control", "checker/testdata/lookbehind/lb.go", "matcher fires on the stored last-error-only example")
 	}
 	if nCtl5 == 0 {
 		c.Undecided("C07/R5", "positive-control", "", "the cursor-overrun matcher no longer recognises its own positive example")
@@ -88,6 +96,7 @@ func checkC07(c *Ctx) {
 	c07R4(c, p)
 	c07R6(c, p)
 	c07R7(c, p)
+	c07LoopErrors(c, p)
 }
 
 // byteIndexOf: v is a byte read s[i] (string Lookup or load of IndexAddr); returns the index value.
@@ -900,4 +909,19 @@ func c07R7(c *Ctx, p *Prog) {
 		})
 	}
 	c.Floor(R, "space classifications in the tokenizer", n, 3)
+}
+
+func c07LoopErrors(c *Ctx, p *Prog) {
+	const R = "C07/R9"
+	n, nf := 0, 0
+	for _, fn := range p.Funcs("benchproc", "benchproc/internal/parse") {
+		nf++
+		lost, k := lostLoopErrors(fn)
+		n += k
+		for i, l := range lost {
+			c.Bad(R, fmt.Sprintf("%s:loop-error#%d", fnName(fn), i+1), p.pos(l.Pos), l.What+": with several sub-expressions only the last one's error is reported, an earlier invalid term is accepted and its compiled form is nil (Match then panics)")
+		}
+	}
+	c.OK(R, "loop-errors:all-tested", "", fmt.Sprintf("%d error values produced inside loops in %d functions are all tested inside their loop", n, nf))
+	_ = n
 }
